@@ -13,7 +13,8 @@ dominated by the true-edge of a branch on the operation's own flag as loaded fro
 (feature_toggle.{deposits,withdrawals,swaps}_enabled; vault {deposit,withdraw,flash_loan}_enabled) -- decided by
 cutting the pass edge and testing reachability. P2: the set of pause flags tested anywhere on the arm and in the
 functions it reaches is exactly {own flag} (no foreign flag can stop the operation, and disabling another flag cannot
-affect it). P3: instantiate stores all flags as the constant true. All three configurations are analysed in the
+affect it). P3: instantiate stores all flags as the constant true. P4: update_config stores into each flag only the
+same-named field of the request (vault) / the request's whole feature_toggle (pools). All three configurations are analysed in the
 thorough tier because the token-factory withdraw arms are only live there.
 """
 ASSUMPTIONS = [
@@ -190,6 +191,41 @@ def run(ctx):
                         paths += 1
         check_defaults(ctx, model, crate, "vault::contract::instantiate", VAULT_FLAGS, r"vault_network::vault::Config$")
     ctx.floor("C17-dispatch", "pausable entry paths", paths, 14)
+    check_flag_writes(ctx, model)
+
+
+def check_flag_writes(ctx, model):
+    """P4: each pause flag stored by update_config is either the value already stored or the same-named field of
+    the request (vault), respectively the request's whole feature_toggle (pools)."""
+    from ..dataflow import field_sources
+    from .C18 import saves_of
+    p = "vault::execute::update_config::update_config"
+    v = ctx.view(p, "C17-P4")
+    if v is not None:
+        for sb, t in saves_of(v, "vault::state::CONFIG"):
+            for flag in sorted(VAULT_FLAGS):
+                srcs = [s for s in field_sources(v, t["args"][2], (flag,), v.at_term(sb)) if s.kind in ("assign", "agg", "partial")]
+                ok = bool(srcs)
+                det = []
+                for s_ in srcs:
+                    os_ = v.origins_of_operand(s_.operand, at=(s_.block, s_.idx)) if s_.operand else set()
+                    det.append(sorted(map(repr, os_)))
+                    ok = ok and bool(os_) and all(o.kind == "param" and o.proj and o.proj[-1] == flag for o in os_)
+                ctx.ob("C17-P4", "vault|update_config|%s" % flag, ok, "CONFIG.%s assigned from %s (must be the request's %s)" % (flag, det, flag), v.where(sb))
+    for crate in sorted(POOLS):
+        p = "%s::commands::update_config" % crate
+        v = ctx.view(p, "C17-P4")
+        if v is None:
+            continue
+        for sb, t in saves_of(v, "%s::state::CONFIG" % crate):
+            srcs = [s for s in field_sources(v, t["args"][2], ("feature_toggle",), v.at_term(sb)) if s.kind in ("assign", "agg", "partial")]
+            ok = bool(srcs) and all(s_.kind == "assign" for s_ in srcs)
+            det = []
+            for s_ in srcs:
+                os_ = v.origins_of_operand(s_.operand, at=(s_.block, s_.idx)) if s_.operand else set()
+                det.append(sorted(map(repr, os_)))
+                ok = ok and bool(os_) and all(o.kind == "param" and "FeatureToggle" in v.local_ty(o.a) and not o.proj for o in os_)
+            ctx.ob("C17-P4", "%s|update_config|feature_toggle" % crate, ok, "CONFIG.feature_toggle assigned from %s (must be the request's whole feature_toggle)" % det, v.where(sb))
 
 
 def check_defaults(ctx, model, crate, inst, flagset, adt_rx):
